@@ -19,6 +19,18 @@ def forEachE {α : Type} (l : List α) (σ : Env) (f : α → Env → Except BEr
     | .error e => .error e
     | .ok σ' => forEachE r σ' f
 
+/-- a loop over containers whose body may rebuild its element (`b.build()` replaces the bundle's control record) -/
+def forMapE {α : Type} (l : List α) (σ : Env) (f : α → Env → Except BErr (α × Env)) : Except BErr (List α × Env) :=
+  match l with
+  | [] => .ok ([], σ)
+  | x :: r =>
+    match f x σ with
+    | .error e => .error e
+    | .ok (x', σ') =>
+      match forMapE r σ' f with
+      | .error e => .error e
+      | .ok (r', σ'') => .ok (x' :: r', σ'')
+
 /-- `p.Validate()` through a pointer member (a nil pointer is not validated here; the reader / JSON loader refuse
 such containers earlier) -/
 def vOpt (m : Model) (k : Kind) (r : Option Vals) : Option BErr :=
